@@ -118,3 +118,59 @@ func TestEnumUnitStrings(t *testing.T) {
 	}
 	ev.Exhaustive("unit strings at the 64-bit edge: 7 unit sets x every unit x counts around MaxInt64/m, 2^63/m, 2^64/m, 3*2^64/m, 1e19, 1e30 x {alone, plus a base component} x {int, int max, float, float max, float min}")
 }
+
+// TestEnumSizes: list and map size bounds - every combination of absent/0/1/2/3 for min and max x every length 0..4 x
+// every raw container form (incl. typed slices, nil slices and nil maps) on Unserialize, and the same lengths in native
+// form (empty rendered both as an empty and as a nil slice / map) on Validate and Serialize; also one level down (a
+// list of lists whose INNER bound is the one that decides).
+func TestEnumSizes(t *testing.T) {
+	if ev.Replaying() {
+		t.Skip()
+	}
+	bounds := []*int64{nil, spec.P(int64(0)), spec.P(int64(1)), spec.P(int64(2)), spec.P(int64(3))}
+	integer, str := &spec.Spec{Kind: spec.KInt}, &spec.Spec{Kind: spec.KString}
+	idx := 0
+	judgeBoth := func(s *spec.Spec, raw val.V) {
+		idx++
+		if !ev.Mine(idx) {
+			return
+		}
+		c := Case{Spec: s, Raw: raw, Note: "size grid"}
+		judgeU(t, c, true, "enum_sizes")
+		ev.Case(ev.FP("native_size", *specKey(s), raw.String()), true, "enum_sizes_native")
+		if msg := RunNative(c); msg != "" {
+			ev.Fail(t, "native", c, "%s\nschema: %s", msg, *specKey(s))
+		}
+	}
+	for _, lo := range bounds {
+		for _, hi := range bounds {
+			list := &spec.Spec{Kind: spec.KList, Items: integer, Min: lo, Max: hi}
+			mp := &spec.Spec{Kind: spec.KMap, Keys: str, Values: integer, Min: lo, Max: hi}
+			outer := &spec.Spec{Kind: spec.KList, Items: list}
+			for n := 0; n <= 4; n++ {
+				var items []val.V
+				var kvs []val.KV
+				for i := 0; i < n; i++ {
+					items = append(items, val.Int("int64", int64(i)))
+					kvs = append(kvs, val.KV{K: val.Str(fmt.Sprintf("k%d", i)), V: val.Int("int64", int64(i))})
+				}
+				forms := []val.V{{T: "[]any", L: items}, {T: "[]int64", L: items}}
+				if n == 0 {
+					forms = append(forms, val.V{T: "nil[]any"})
+				}
+				for _, f := range forms {
+					judgeBoth(list, f)
+					judgeBoth(outer, val.V{T: "[]any", L: []val.V{{T: "[]any", L: []val.V{val.Int("int64", 1)}}, f}})
+				}
+				mforms := []val.V{{T: "map[string]any", M: kvs}, {T: "map[any]any", M: kvs}, {T: "map[string]int64", M: kvs}}
+				if n == 0 {
+					mforms = append(mforms, val.V{T: "nilmap[string]any"})
+				}
+				for _, f := range mforms {
+					judgeBoth(mp, f)
+				}
+			}
+		}
+	}
+	ev.Exhaustive("list/map size grid: min, max in {absent,0,1,2,3} x lengths 0..4 x raw container forms (any-typed, typed, nil) x {Unserialize; Validate and Serialize with empty as empty and as nil}, also as inner list of a list of lists")
+}
